@@ -1,87 +1,167 @@
 (* C36 - Label include/exclude filters select exactly the documented targets.
-   This file holds only the statement, the property theorem and its non-vacuity examples.
-   The documented rule (`selected`, `excluded`, `in_selection`, `carries_label`, `denotes`, ...) is written out in
-   Proof/C36_spec.v; the code's side (`state_should_include`, `expand_pseudo`, `expand_labels`, `has_label`,
-   `set_include_and_exclude`, ...) is the executable model Model/C36.v. *)
+   This file holds only the statement, the property theorems and their non-vacuity examples.
+   The documented rule (`selected`, `excluded`, `in_selection`, `carries_label`, `denotes`, `reads`, ...) is written
+   out in Proof/C36_spec.v; the code's side (`state_should_include`, `expand_pseudo`, `expand_labels`, `has_label`,
+   `set_include_and_exclude`, `parse_exclude`, ...) is the executable model Model/C36.v.
+   `cur` is the package plz was started in (core.InitialPackagePath); labels, targets and packages carry their
+   subrepo. *)
 From Coq Require Import String.
-From PlzV Require Import Base.Harness Model.C36 Proof.C36_spec Proof.C36.
+From PlzV Require Import Base.Harness Model.C36 Proof.C36_spec Proof.C36 Proof.C36_parse.
 Local Open Scope list_scope.
 
+(* what does not depend on the filters given: label matching, and the reading of exclude build expressions *)
+Definition C36_reading : Prop :=
+  (* a trailing `*` matches by prefix, against the declared labels and the implicit `test` label alike *)
+  (forall t p, has_label t p = true <-> carries_label t p)
+  /\ (forall p l, match_ p l = true <-> label_matches p l)
+  (* an exclude expression `:name` is resolved against the package plz was started in - or rejected *)
+  /\ (forall cur name, parse_exclude cur (COLON :: name) =
+        if validate_target_name name then Some {| l_sub := []; l_pkg := cur; l_name := name |} else None)
+  (* `//...` expressions are absolute: they read the same from every package *)
+  /\ (forall cur x, has_prefix (s "//") x = true -> parse_exclude cur x = parse_exclude [] x)
+  (* the documented forms :name, //pkg:name, ///sub//pkg:name, @sub//pkg:name are accepted with their meaning *)
+  /\ (forall cur x e, reads cur x e -> is_expression x /\ parse_exclude cur x = Some e)
+  (* the parser model's recursion bound is never reached *)
+  /\ (forall cur x, parse_parts (S (length x)) x cur <> PFuel).
+
 Definition C36_statement : Prop :=
-  (* for every --include and --exclude argument list the code accepts (SetIncludeAndExclude does not die) *)
-  (forall include exclude st, set_include_and_exclude empty_state include exclude = Some st ->
+  (* for every package plz is started in, every --include and --exclude argument list the code accepts *)
+  (forall cur include exclude st, set_include_and_exclude cur empty_state include exclude = Some st ->
      (* every target, every label set: BuildState.ShouldInclude accepts it exactly when it carries every label of
         at least one include group (or no include is given), carries no exclude group, and no exclude build
         expression denotes it *)
-     (forall t, state_should_include st t = true <-> selected include exclude t)
+     (forall t, state_should_include st t = true <-> selected cur include exclude t)
      (* exclusion always takes priority *)
-     /\ (forall t, excluded exclude t -> state_should_include st t = false)
+     /\ (forall t, excluded cur exclude t -> state_should_include st t = false)
      (* no filter: every target *)
      /\ (include = [] -> exclude = [] -> forall t, state_should_include st t = true)
      (* building :all or /... : exactly the documented targets of the packages the label ranges over, each once;
         with NeedTests only the tests among them *)
      /\ (forall g L just_tests, wf_graph g -> is_pseudo L = true ->
-           (forall lbl, In lbl (expand_pseudo st g L just_tests) <-> in_selection include exclude g L just_tests lbl)
+           (forall lbl, In lbl (expand_pseudo st g L just_tests) <-> in_selection cur include exclude g L just_tests lbl)
            /\ NoDup (expand_pseudo st g L just_tests))
      (* several requested labels: the pseudo ones are expanded as above, the others pass through *)
      /\ (forall g ls just_tests lbl,
            In lbl (expand_labels st g ls just_tests) <->
            exists L, In L ls /\ ((is_pseudo L = false /\ lbl = L)
                                  \/ (is_pseudo L = true /\ In lbl (expand_pseudo st g L just_tests))))
-     (* a requested //pkg:all that AddOriginalTarget drops up front loses no selected target *)
+     (* a requested :all label that AddOriginalTarget drops up front loses no selected target of its package *)
      /\ (forall L t, is_all_targets L = true -> any_includes (st_exclude_targets st) L = true ->
-           t_pkg t = l_pkg L -> state_should_include st t = false))
-  (* a trailing `*` matches by prefix, against the declared labels and the implicit `test` label alike *)
-  /\ (forall t p, has_label t p = true <-> carries_label t p)
-  /\ (forall p l, match_ p l = true <-> label_matches p l)
-  (* exclude build expressions remove exactly the targets they denote *)
-  /\ (forall e that, includes e that = true <-> denotes e that).
+           t_pkg t = l_pkg L -> t_sub t = l_sub L -> ~ selected cur include exclude t))
+  (* exclude build expressions remove exactly the targets they denote - those of their own repository *)
+  /\ (forall e that, includes e that = true <-> denotes e that)
+  /\ C36_reading.
 
-Theorem C36_full : C36_statement.
+(* The code does not satisfy the statement: BuildLabel.Includes never compares Subrepo, so the exclude expression
+   //p:x also covers ///s//p:x (and ///s//p:x covers //p:x). *)
+Theorem C36_refuted : ~ C36_statement.
 Proof.
-  exact (conj (fun include exclude st Hset =>
-                 conj (fun t => state_should_include_spec include exclude st t Hset)
-                (conj (fun t => exclusion_wins include exclude st t Hset)
-                (conj (no_filters include exclude st Hset)
-                (conj (fun g L jt => expand_pseudo_selected include exclude st g L jt Hset)
-                (conj (expand_labels_in st)
-                      (dropped_all_consistent st))))))
-        (conj has_label_spec (conj match_spec includes_spec))).
+  exact (fun H => proj2 includes_ignores_subrepo (proj1 (proj1 (proj2 H) _ _) (proj1 includes_ignores_subrepo))).
 Qed.
-Print Assumptions C36_full.
+Print Assumptions C36_refuted.
 
-(* Non-vacuity 1: a graph with shared package prefixes, compound and wildcard groups, a label exclude and an
-   exclude expression; //a/... selects exactly two targets. *)
+(* What holds for all inputs.  The two defect classes are executable / structural side conditions:
+     confused st t = true   : some exclude expression of ANOTHER repository covers package and name of t
+     host_only g L          : the requested `...` label and all packages of the graph are of the host repository
+   Everything else of the statement is proved without them. *)
+Definition C36_partial_statement : Prop :=
+  (forall cur include exclude st, set_include_and_exclude cur empty_state include exclude = Some st ->
+     (* never too much: whatever is accepted is selected by the documented rule - whatever the subrepos *)
+     (forall t, state_should_include st t = true -> selected cur include exclude t)
+     (* exact, outside the defect class *)
+     /\ (forall t, confused st t = false -> (state_should_include st t = true <-> selected cur include exclude t))
+     (* the defect class is exactly this *)
+     /\ (forall t, confused st t = true <->
+            exists e, In e (st_exclude_targets st) /\ denotes_names e (t_label t) /\ l_sub e <> t_sub t)
+     /\ (forall t, (forall e, In e (st_exclude_targets st) -> l_sub e = t_sub t) -> confused st t = false)
+     (* exclusion always takes priority *)
+     /\ (forall t, excluded cur exclude t -> state_should_include st t = false)
+     (* no filter: every target *)
+     /\ (include = [] -> exclude = [] -> forall t, state_should_include st t = true)
+     (* :all in any repository, /... in the host repository: exactly the documented targets, each once *)
+     /\ (forall g L just_tests, wf_graph g -> is_pseudo L = true ->
+           (is_all_targets L = true \/ host_only g L) ->
+           (forall p t, In p g -> In t (p_targets p) -> confused st t = false) ->
+           (forall lbl, In lbl (expand_pseudo st g L just_tests) <-> in_selection cur include exclude g L just_tests lbl)
+           /\ NoDup (expand_pseudo st g L just_tests))
+     (* any pseudo label, any subrepos: only targets of the graph that the documented rule selects, each once *)
+     /\ (forall g L just_tests, wf_graph g -> is_pseudo L = true ->
+           (forall lbl, In lbl (expand_pseudo st g L just_tests) ->
+              exists p t, In p g /\ In t (p_targets p) /\ t_label t = lbl
+                          /\ (just_tests = true -> t_test t = true) /\ selected cur include exclude t)
+           /\ NoDup (expand_pseudo st g L just_tests))
+     /\ (forall g ls just_tests lbl,
+           In lbl (expand_labels st g ls just_tests) <->
+           exists L, In L ls /\ ((is_pseudo L = false /\ lbl = L)
+                                 \/ (is_pseudo L = true /\ In lbl (expand_pseudo st g L just_tests))))
+     /\ (forall L t, is_all_targets L = true -> any_includes (st_exclude_targets st) L = true ->
+           t_pkg t = l_pkg L -> confused st t = false -> ~ selected cur include exclude t))
+  (* Includes is exact on package and name, and exact between labels of one repository *)
+  /\ (forall e that, includes e that = true <-> denotes_names e that)
+  /\ (forall e that, l_sub that = l_sub e -> (includes e that = true <-> denotes e that))
+  (* `--exclude :name` alone, plz started in cur: exactly the host targets //cur:name denotes are rejected *)
+  /\ (forall cur name st t, set_include_and_exclude cur empty_state [] [COLON :: name] = Some st -> t_sub t = [] ->
+        (state_should_include st t = false <-> denotes {| l_sub := []; l_pkg := cur; l_name := name |} (t_label t)))
+  /\ C36_reading.
+
+Theorem C36_partial : C36_partial_statement.
+Proof.
+  exact (conj (fun cur include exclude st Hset =>
+                 conj (fun t => state_should_include_sound cur include exclude st t Hset)
+                (conj (fun t => state_should_include_spec cur include exclude st t Hset)
+                (conj (confused_true st)
+                (conj (confused_one_repo st)
+                (conj (fun t => exclusion_wins cur include exclude st t Hset)
+                (conj (no_filters cur include exclude st Hset)
+                (conj (fun g L jt => expand_pseudo_selected cur include exclude st g L jt Hset)
+                (conj (fun g L jt => expand_pseudo_sound_nodup cur include exclude st g L jt Hset)
+                (conj (expand_labels_in st)
+                      (fun L t => dropped_all_loses_nothing cur include exclude st L t Hset))))))))))
+        (conj includes_spec (conj includes_same_repo (conj relative_exclude_exact
+        (conj has_label_spec (conj match_spec (conj parse_exclude_relative (conj parse_exclude_absolute
+        (conj reads_parse try_parse_fuel))))))))).
+Qed.
+Print Assumptions C36_partial.
+
+(* Non-vacuity 1: plz started in package a; a graph with shared package prefixes, compound and wildcard groups, a
+   label exclude, an absolute and a RELATIVE exclude expression; //a/... selects exactly one target, and every target
+   of the graph is outside the defect class. *)
 Example C36_nonvacuous :
   let g := mk_graph
-    [ (s "a",   [ (s "lib", [s "go"], false); (s "lib_test", [s "go"; s "slow"], true); (s "gen", [s "py"], false) ]);
-      (s "a/b", [ (s "x_test", [s "go_test"], true); (s "y", [s "go"], false) ]);
-      (s "ab",  [ (s "z_test", [s "go"], true) ]) ] in
+    [ ([], s "a",   [ (s "lib", [s "go"], false); (s "lib_test", [s "go"; s "slow"], true); (s "gen", [s "py"], false);
+                      (s "tool", [s "py"], false) ]);
+      ([], s "a/b", [ (s "x_test", [s "go_test"], true); (s "y", [s "go"], false); (s "gen", [s "py"], false) ]);
+      ([], s "ab",  [ (s "z_test", [s "go"], true) ]) ] in
   let include := [s "go*,te*"; s "py"] in
-  let exclude := [s "slow"; s "//a/b:y"; s "@z"] in
+  let exclude := [s "slow"; s "//a/b:y"; s ":gen"; s "@z"; s "//a:tool"] in
   wf_graph g
-  /\ exists st, set_include_and_exclude empty_state include exclude = Some st
+  /\ exists st, set_include_and_exclude (s "a") empty_state include exclude = Some st
      /\ st_exclude st = [s "slow"; s "@z"]
-     /\ st_exclude_targets st = [mk_label (s "a/b", s "y")]
-     /\ map un_label (expand_pseudo st g (mk_label (s "a", s "...")) false) = [(s "a", s "gen"); (s "a/b", s "x_test")]
-     /\ map un_label (expand_pseudo st g (mk_label (s "a", s "all")) true) = [].
+     /\ st_exclude_targets st = [mk_label ([], s "a/b", s "y"); mk_label ([], s "a", s "gen"); mk_label ([], s "a", s "tool")]
+     /\ map un_label (expand_pseudo st g (mk_label ([], s "a", s "...")) false) = [([], s "a/b", s "gen"); ([], s "a/b", s "x_test")]
+     /\ map un_label (expand_pseudo st g (mk_label ([], s "a", s "all")) true) = []
+     /\ host_only g (mk_label ([], s "a", s "..."))
+     /\ (forall p t, In p g -> In t (p_targets p) -> confused st t = false).
 Proof.
   cbv zeta. split.
   - split; [vm_compute; repeat constructor; cbn; intuition discriminate|].
     intros p Hp. vm_compute in Hp.
     destruct Hp as [<-|[<-|[<-|[]]]]; (split; [vm_compute; repeat constructor; cbn; intuition discriminate|]);
       intros t Ht; vm_compute in Ht; intuition (subst; reflexivity).
-  - eexists. split; [vm_compute; reflexivity|]. vm_compute. repeat split.
+  - eexists. split; [vm_compute; reflexivity|]. repeat split; try (vm_compute; reflexivity).
+    + intros p Hp. vm_compute in Hp. intuition (subst; reflexivity).
+    + intros p t Hp Ht. vm_compute in Hp.
+      destruct Hp as [<-|[<-|[<-|[]]]]; vm_compute in Ht; intuition (subst; reflexivity).
 Qed.
 
 (* Non-vacuity 2 (and the repaired defect b32293a): a test target without declared labels carries `test`, so the
    wildcard labels `test*`, `te*` and `*` select / exclude it. *)
 Example C36_wildcard_sees_implicit_test :
-  let t := {| t_pkg := s "p"; t_name := s "x"; t_labels := []; t_test := true |} in
+  let t := {| t_sub := []; t_pkg := s "p"; t_name := s "x"; t_labels := []; t_test := true |} in
   target_should_include t [s "test*"] [] = true
   /\ target_should_include t [] [s "te*"] = false
   /\ target_should_include t [s "*"] [s "tex*"] = true
-  /\ selected [s "test*"] [] t.
+  /\ selected [] [s "test*"] [] t.
 Proof.
   cbv zeta. repeat split; try (vm_compute; reflexivity).
   - right. exists (s "test*"). split; [left; reflexivity|]. exists [s "test*"]. split.
@@ -90,4 +170,45 @@ Proof.
       right. exists (s "test"), []. split; reflexivity.
   - intros x [].
   - intros x e [].
+Qed.
+
+(* Non-vacuity 3 (seeded mutation m3): plz started in package pkg, `--exclude :foo` is //pkg:foo - it rejects
+   //pkg:foo and keeps its namesake //:foo of the root package; from the root it is the other way round. *)
+Example C36_relative_exclude_is_relative :
+  let foo_in p := {| t_sub := []; t_pkg := p; t_name := s "foo"; t_labels := [s "x"]; t_test := false |} in
+  (exists st, set_include_and_exclude (s "pkg") empty_state [] [s ":foo"] = Some st
+     /\ st_exclude_targets st = [mk_label ([], s "pkg", s "foo")]
+     /\ state_should_include st (foo_in (s "pkg")) = false
+     /\ state_should_include st (foo_in []) = true)
+  /\ (exists st, set_include_and_exclude [] empty_state [] [s ":foo"] = Some st
+     /\ state_should_include st (foo_in (s "pkg")) = true
+     /\ state_should_include st (foo_in []) = false)
+  /\ reads (s "pkg") (s ":foo") (mk_label ([], s "pkg", s "foo"))
+  /\ reads (s "pkg") (s "///sub//pkg:foo") (mk_label (s "sub", s "pkg", s "foo")).
+Proof.
+  cbv zeta. repeat split.
+  - eexists. split; [vm_compute; reflexivity|]. repeat split.
+  - eexists. split; [vm_compute; reflexivity|]. repeat split.
+  - apply (read_relative (s "pkg") (s "foo")). reflexivity.
+  - apply (read_subrepo_slashes (s "pkg") (s "sub") (s "pkg") (s "foo")); try reflexivity; try discriminate.
+    + vm_compute. intuition discriminate.
+    + intros a b E. destruct a as [|? [|? [|? [|? a]]]]; cbn in E; try discriminate;
+        injection E; intros; subst; try discriminate. destruct a; discriminate.
+Qed.
+
+(* Non-vacuity 4 (the open finding): `--exclude ///s//p:x` also rejects the host target //p:x, which the
+   documented rule selects - the target is in the defect class; its neighbour //p:y is not and is treated exactly. *)
+Example C36_exclude_expression_ignores_subrepo :
+  let host n := {| t_sub := []; t_pkg := s "p"; t_name := n; t_labels := []; t_test := false |} in
+  exists st, set_include_and_exclude [] empty_state [] [s "///s//p:x"] = Some st
+    /\ state_should_include st (host (s "x")) = false
+    /\ selected [] [] [s "///s//p:x"] (host (s "x"))
+    /\ confused st (host (s "x")) = true
+    /\ confused st (host (s "y")) = false
+    /\ state_should_include st (host (s "y")) = true.
+Proof.
+  cbv zeta. eexists. split; [vm_compute; reflexivity|]. repeat split; try (vm_compute; reflexivity).
+  - left. reflexivity.
+  - intros x [<-|[]] Hne. exfalso. apply Hne. left. exists (s "/s//p:x"). reflexivity.
+  - intros x e [<-|[]] _ Hp. vm_compute in Hp. injection Hp as <-. intros [H _]. discriminate.
 Qed.
